@@ -185,7 +185,8 @@ type txInst struct {
 	RTO         time.Duration
 	StartTime   time.Time
 	StartPos    int  // log position when the call was issued
-	CallPos     int  // log position when the library call began (after the scheduling point in front of it); 0 = unknown
+	CallPos     int  // log position when the library call began (after the scheduling point in front of it)
+	Called      bool // CallPos is set
 	Thr         int  // scheduler thread that issued the call
 	Started     bool // call issued
 	Returned    bool
@@ -662,6 +663,9 @@ func (w *cliWorld) msgFor(slot int) *stun.Message {
 // do executes one event in the calling thread.
 func (w *cliWorld) do(ev cliEv, quiesce bool) {
 	c := w.client
+	if quiesce && ev.K != "garbage" {
+		w.rec(obsRec{Kind: "ev", Inst: -1}) // event boundary of a sequential history
+	}
 	switch ev.K {
 	case "start":
 		inst, idx := w.newInst(ev.I, "start")
@@ -672,7 +676,7 @@ func (w *cliWorld) do(ev cliEv, quiesce bool) {
 		inst.Started = true
 		inst.Thr = sched.CurrentID()
 		sched.Point("invoke", nil)
-		inst.CallPos = len(w.log)
+		inst.CallPos, inst.Called = len(w.log), true
 		err := c.Start(m, w.handlerFor(inst, idx))
 		inst.Returned, inst.RetErr = true, err
 		inst.RetAt = w.rec(obsRec{Kind: "start-ret", Inst: idx, Err: err})
@@ -687,7 +691,7 @@ func (w *cliWorld) do(ev cliEv, quiesce bool) {
 		body := func() {
 			inst.Thr = sched.CurrentID()
 			sched.Point("invoke", nil)
-			inst.CallPos = len(w.log)
+			inst.CallPos, inst.Called = len(w.log), true
 			err := c.Do(m, func(e stun.Event) { h(e) })
 			inst.Returned, inst.RetErr = true, err
 			inst.RetAt = w.rec(obsRec{Kind: "do-ret", Inst: idx, Err: err})
@@ -733,6 +737,7 @@ func (w *cliWorld) do(ev cliEv, quiesce bool) {
 	case "garbage":
 		sched.Point("net", nil)
 		d := cliGarbage(ev.Arg)
+		w.rec(obsRec{Kind: "deliver-garbage", Inst: -1, N: len(w.delivered)})
 		w.delivered = append(w.delivered, d)
 		w.conn.inbox = append(w.conn.inbox, d)
 	case "tick":
